@@ -115,6 +115,8 @@ pub fn eval(n: &Node, at: f64) -> R {
             PostOp::Deg => {
                 let r = v * DEG;
                 match tol_of(q) {
+                    // within rounding of overflow the tolerance cannot tell inf from a finite value
+                    Some(_) if v.is_finite() && !(r.abs() < 1e300) => RV::Val(r, Q::Skip),
                     Some(t) => RV::Val(r, Q::Tol(t * DEG + r.abs() * 1e-12)),
                     None => RV::Val(r, Q::Skip),
                 }
@@ -122,6 +124,7 @@ pub fn eval(n: &Node, at: f64) -> R {
             PostOp::Rad => {
                 let r = v * RAD;
                 match tol_of(q) {
+                    Some(_) if v.is_finite() && !(r.abs() < 1e300) => RV::Val(r, Q::Skip),
                     Some(t) => RV::Val(r, Q::Tol(t * RAD + r.abs() * 1e-9)),
                     None => RV::Val(r, Q::Skip),
                 }
